@@ -202,7 +202,15 @@ impl<S: Scheduler> Scheduler for ContractChecker<S> {
                     // before its first poll (then it finishes without ever running its body)
                     self.prog.tasks[t].kind == TaskKind::Thread || !uses(&self.prog, |o| matches!(o, Op::Abort(x) if *x == t))
                 } else if let Some(pc) = l.cur_pc[t] {
-                    never_blocks(&self.prog.tasks[t].ops[pc], &self.prog.objs.chans)
+                    // known finding c18.reblock-if-unfair-blocks-non-waiting-task: a task that keeps a queued
+                    // acquisition on an unfair semaphore can be blocked while it is doing something else
+                    let ops = &self.prog.tasks[t].ops;
+                    let keeps_unfair_acquisition = ops[..pc]
+                        .iter()
+                        .rposition(|o| matches!(o, Op::AcqStart(..) | Op::AcqFinish | Op::AcqDrop))
+                        .map(|i| matches!(&ops[i], Op::AcqStart(s, _) if !self.prog.objs.sems[*s].1))
+                        .unwrap_or(false);
+                    !keeps_unfair_acquisition && never_blocks(&ops[pc], &self.prog.objs.chans)
                 } else {
                     false
                 };
